@@ -1,21 +1,12 @@
-"""Per-property configuration of ./check."""
+"""Per-property configuration of ./check: one file per property in tools/props.d/ (PROP = check config, TEXT = manifest text)."""
+import glob, importlib.util, os
 
-WIRE_TB = ['hand-written Lean model of Message::Flatten/Unflatten/FlattenedSize and the public mutators (lean/MuscleModel/Wire)',
-           'type codes, protocol version, per-type wire sizes and the nesting limit are regenerated from /repo on every run (tools/extract_consts.cpp)']
-
-SRV_H = [{'name': 'srv', 'sources': ['harness/srv.cpp']}]
-
-PROPS = {
-    'C04': {'engine': 'srv', 'lean_props': ['MuscleModel.Props.C01'], 'harnesses': SRV_H},
-    'C05': {'engine': 'srv', 'lean_props': ['MuscleModel.Props.C01'], 'harnesses': SRV_H},
-    'C06': {'engine': 'srv', 'lean_props': ['MuscleModel.Props.C01'], 'harnesses': SRV_H},
-    'C13': {'engine': 'srv', 'lean_props': ['MuscleModel.Props.C01'], 'harnesses': SRV_H},
-    'C01': {
-        'engine': 'msg',
-        'lean_props': ['MuscleModel.Props.C01'],
-        'harnesses': [{'name': 'msg', 'sources': ['harness/msg.cpp']}],
-        'trusted_base': WIRE_TB,
-        'assumptions': ['sizes below 2^32 (Fits32)', 'nesting depth within MUSCLE_MAX_MESSAGE_NESTING_DEPTH', 'B_ANY_TYPE is not used as a data type code'],
-        'rule': 'random op sequences over a register file of 8 Messages (add/prepend/remove/replace/rename/copy/flatten/unflatten/compare), every op executed on the real Message class and on the Lean model; flatten bytes, sizes, dumps and equality results must agree; the direct round-trip oracle runs on every flatten; distinct = distinct case bodies',
-    },
-}
+PROPS, TEXT = {}, {}
+for _f in sorted(glob.glob(os.path.join(os.path.dirname(os.path.abspath(__file__)), 'props.d', 'C*.py'))):
+    _id = os.path.basename(_f)[:-3]
+    _spec = importlib.util.spec_from_file_location('props_d_' + _id, _f)
+    _m = importlib.util.module_from_spec(_spec)
+    _spec.loader.exec_module(_m)
+    PROPS[_id] = _m.PROP
+    if hasattr(_m, 'TEXT'):
+        TEXT[_id] = _m.TEXT
